@@ -428,9 +428,12 @@ print('@@' + json.dumps(c15.st_process(json.loads({spec!r}))))
 """
 
 
-def fresh_process(spec, hashseed, repo):
+def fresh_process(spec, hashseed, repo, optimize=False):
     env = dict(os.environ)
     env["PYTHONHASHSEED"] = str(hashseed)
+    env.pop("PYTHONOPTIMIZE", None)
+    if optimize:
+        env["PYTHONOPTIMIZE"] = "1"  # the twin interpreter runs under `python -O`
     code = FRESH_CODE.format(repo=repo, verif=core.VERIF_DIR, spec=json.dumps(spec))
     r = subprocess.run([core.PYTHON, "-c", code], capture_output=True, text=True, env=env, cwd="/tmp", timeout=2500)
     for line in r.stdout.splitlines():
@@ -457,7 +460,7 @@ def run(spec: dict, ctx) -> dict:
     stats["pre_" + spec.get("pre", "none")] = 1
     if "fresh" in spec:
         os.makedirs(os.path.join(ctx.scratch, "fresh"), exist_ok=True)
-        r2 = fresh_process(dict(sp, scratch=os.path.join(ctx.scratch, "fresh"), pre=spec["fresh"].get("pre", "none")), spec["fresh"]["hashseed"], ctx.repo)
+        r2 = fresh_process(dict(sp, scratch=os.path.join(ctx.scratch, "fresh"), pre=spec["fresh"].get("pre", "none")), spec["fresh"]["hashseed"], ctx.repo, optimize=bool(spec["fresh"].get("optimize")))
         stats["probe_fresh_interpreter"] = 1
         if r2["events"] != res["events"]:
             badent = next((a for a, b in zip(res["events"], r2["events"]) if a != b), None)
@@ -484,7 +487,7 @@ def post(pool, pairs, tier, rng):
     for g, d in by.items():
         if len(d) > 1:
             specs = [v[0] for v in d.values()]
-            s0 = dict(specs[0], fresh={"hashseed": pool.hashseeds[(specs[1].get("slot") or 0) % len(pool.hashseeds)], "pre": specs[1].get("pre", "none")}, group=None)
+            s0 = dict(specs[0], fresh={"hashseed": pool.hashseeds[(specs[1].get("slot") or 0) % len(pool.hashseeds)], "pre": specs[1].get("pre", "none"), "optimize": ((specs[1].get("slot") or 0) % len(pool.hashseeds)) in pool.optimize_slots}, group=None)
             r = pool.run([{"prop": PROP, "tier": tier, "timeout": JOB_TIMEOUT, "spec": s0, "slot": s0.get("slot")}])[0]
             if isinstance(r, dict) and r.get("status") == "violation":
                 more.append((s0, r))
@@ -511,7 +514,7 @@ def gen_specs(rng: random.Random, tier: str, n: int) -> list[dict]:
     for slot in range(1 if tier == "quick" else K):
         specs.append({"mode": "module-history", "seed": seed, "slot": slot, "group": 1, "n_ops": 3, "pre": "module", "full_digests": False, "sample": 0})
     # one run whose twin lives in a truly fresh interpreter (no fork server, no warm-up)
-    specs.append({"seed": seed, "sample": SAMPLE[tier] // 3, "slot": 0, "pre": "none", "group": None, "full_digests": False, "fresh": {"hashseed": rng.randrange(1, 2**32 - 1), "pre": "dataset-work"}})
+    specs.append({"seed": seed, "sample": SAMPLE[tier] // 3, "slot": 0, "pre": "none", "group": None, "full_digests": False, "fresh": {"hashseed": rng.randrange(1, 2**32 - 1), "pre": "dataset-work", "optimize": True}})
     return specs
 
 
